@@ -4,7 +4,7 @@
 //! A program is a typed AST printed twice: as Roto source and as a token
 //! stream for `c02 spec …` of the Lean driver (`RotoV.Model.ValueSpec`).
 use crate::types::*;
-use roto::{FileTree, NoCtx, Runtime, library, RotoString, Val};
+use roto::{FileTree, List, NoCtx, Runtime, library, RotoString, Val};
 use rotov_harness::driver::{Driver, hex};
 use rotov_harness::{Prng, Report};
 use serde_json::{Value, json};
@@ -56,6 +56,38 @@ impl Drop for Big {
 }
 #[derive(Clone, Copy, Debug, PartialEq)]
 pub struct Pt(u8, u8, u8);
+
+/// Fill the stack below the caller with known garbage: byte `k` below the
+/// caller's frame gets `hash(k) ^ v`. Bytes of a value that are not part of it
+/// (padding, the storage of the variants that are not live) are never written
+/// by a script: they keep what the stack held before. The harness paints
+/// before every call of `main`, so two values built in different places of
+/// `main`'s frame differ in those bytes; a script that calls `paint_stack(a)`,
+/// builds a value inside a callee, calls `paint_stack(b)` (a ≠ b) and builds
+/// the same value again in the same callee holds two values that are equal as
+/// values and differ in EVERY such byte — deterministically.
+#[inline(never)]
+pub fn paint(v: u8) {
+    const N: usize = 64 * 1024;
+    let mut buf = [std::mem::MaybeUninit::<u8>::uninit(); N];
+    for (i, b) in buf.iter_mut().enumerate() {
+        let k = (N - i) as u32;
+        let g = (k.wrapping_mul(0x9E37_79B1) >> 24) as u8;
+        unsafe { std::ptr::write_volatile(b.as_mut_ptr(), g ^ v) };
+    }
+    std::hint::black_box(&mut buf);
+}
+
+/// side channel of the representation battery (never emitted, so never part
+/// of the expected output): pairs of lists a script is about to compare whose
+/// element buffers hold other / the same bytes (hook `element_bytes`)
+pub static BYTES_DIFFER: std::sync::atomic::AtomicU64 = std::sync::atomic::AtomicU64::new(0);
+pub static BYTES_SAME: std::sync::atomic::AtomicU64 = std::sync::atomic::AtomicU64::new(0);
+fn note_bytes<T: roto::Value>(a: &List<T>, b: &List<T>) {
+    use roto::verif_hooks::c02::element_bytes;
+    let c = if element_bytes(a) != element_bytes(b) { &BYTES_DIFFER } else { &BYTES_SAME };
+    c.fetch_add(1, std::sync::atomic::Ordering::SeqCst);
+}
 
 pub fn runtime() -> Runtime<NoCtx> {
     Runtime::from_lib(library! {
@@ -117,6 +149,16 @@ pub fn runtime() -> Runtime<NoCtx> {
         fn emit_tag(v: u32) { log(format!("t:{v}")) }
         /// emit the length of a list
         fn emit_len(v: u64) { log(format!("n:{v}")) }
+        /// fill the unused stack with one byte value (see `paint`)
+        fn paint_stack(v: u8) { paint(v) }
+        /// measure (side channel): do the two element buffers hold the same bytes?
+        fn note_ou32(a: List<Option<u32>>, b: List<Option<u32>>) { note_bytes(&a, &b) }
+        /// measure (side channel)
+        fn note_ou8(a: List<Option<u8>>, b: List<Option<u8>>) { note_bytes(&a, &b) }
+        /// measure (side channel)
+        fn note_oi64(a: List<Option<i64>>, b: List<Option<i64>>) { note_bytes(&a, &b) }
+        /// measure (side channel)
+        fn note_f64(a: List<f64>, b: List<f64>) { note_bytes(&a, &b) }
     })
     .expect("runtime")
 }
@@ -186,6 +228,16 @@ pub enum E {
     Try(usize, Vec<usize>, Box<E>),
     Eq(bool, Box<E>, Box<E>),
     Len(Box<E>),
+    /// float literal whose `==` class differs from its text: (source, text the
+    /// host prints, what `==` compares) — `-0.0` prints `-0` and equals `0.0`
+    OpaqueK(&'static str, &'static str, &'static str),
+    /// `make_k(p0, …, p6)`: `fn make_k(p0: u8, …) -> T { <e> }` — the value is
+    /// built inside the callee's frame (from `main`'s arguments and literals)
+    /// and comes back through the return slot
+    Make(usize, Box<E>),
+    /// `stale_k(l)`: the one-element list `[l.get(l.len())]` = `[None]`, read
+    /// through a result variable that held `Some(l[i])` on the iterations before
+    StaleNone(usize, Box<E>),
 }
 
 #[derive(Clone, Debug)]
@@ -209,6 +261,10 @@ pub enum S {
     Match(E, Vec<Arm>),
     For(usize, E, Vec<S>),
     If(E, Vec<S>, Vec<S>),
+    /// `paint_stack(n);`
+    Paint(u8),
+    /// `note_<sfx>(a, b);` — side channel, no observable effect
+    Note(&'static str, usize, usize),
 }
 
 pub struct Case {
@@ -230,6 +286,8 @@ struct Gen<'a> {
     fresh: usize,
     /// building the constant of a helper function: no variables, no arguments
     closed: bool,
+    /// … except `main`'s arguments, which the helper receives under the same names
+    closed_args: bool,
 }
 
 #[derive(Clone)]
@@ -443,7 +501,7 @@ impl<'a> Gen<'a> {
         match t {
             T::Bool | T::Int(..) => {
                 let args: Vec<usize> = (0..NARGS).filter(|i| &ARG_TYPES[*i] == t).collect();
-                if !args.is_empty() && !self.closed && self.p.chance(1, 2) {
+                if !args.is_empty() && (!self.closed || self.closed_args) && self.p.chance(1, 2) {
                     E::Arg(*self.p.pick(&args))
                 } else {
                     self.lit(t)
@@ -451,7 +509,16 @@ impl<'a> Gen<'a> {
             }
             T::Unit => E::Unit,
             T::F32 | T::F64 => {
-                let (a, b) = *self.p.pick(&[("1.5", "1.5"), ("0.0", "0"), ("-2.25", "-2.25"), ("1000000.0", "1000000")]);
+                if self.p.chance(1, 6) {
+                    // equal to `0.0` as a value, another bit pattern
+                    return E::OpaqueK("-0.0", "-0", "0");
+                }
+                if (!self.closed || self.closed_args) && self.p.chance(1, 10) {
+                    // equal to nothing, itself included, whatever its bits
+                    self.kinds.insert("float-nan");
+                    return E::OpaqueK("0.0 / 0.0", "NaN", "nan");
+                }
+                let (a, b) = *self.p.pick(&[("1.5", "1.5"), ("0.0", "0"), ("0.0", "0"), ("-2.25", "-2.25"), ("1000000.0", "1000000")]);
                 E::Opaque(a, b)
             }
             T::Char => {
@@ -609,6 +676,160 @@ impl<'a> Gen<'a> {
         }
     }
 
+    /// a helper `fn make_k(p0: u8, …, p6: bool) -> T { e }`
+    fn make_helper(&mut self, t: &T, e: &E) -> usize {
+        let k = self.helpers.len();
+        let mut src = Src { env: &self.env, fresh: 0 };
+        let body = src.e(e, None);
+        let params: String =
+            (0..NARGS).map(|i| format!("p{i}: {}", ARG_TYPES[i].src(&self.env))).collect::<Vec<_>>().join(", ");
+        self.helpers.push(format!("fn make_{k}({params}) -> {} {{ {body} }}", t.src(&self.env)));
+        k
+    }
+
+    /// a construction of type `t` from literals and `main`'s arguments only; an
+    /// enum-like type is built in its variant `tag` (modulo) when one is given
+    fn build_closed(&mut self, t: &T, tag: Option<usize>) -> E {
+        let (c, ca) = (self.closed, self.closed_args);
+        self.closed = true;
+        self.closed_args = true;
+        let e = match (tag, self.variants_of(t)) {
+            (Some(k), Some(vs)) => {
+                let (c, _, tag, ts) = vs[k % vs.len()].clone();
+                E::Enm(c, tag, ts.iter().map(|ft| self.build0(ft, 2)).collect())
+            }
+            _ => self.build0(t, 3),
+        };
+        self.closed = c;
+        self.closed_args = ca;
+        e
+    }
+
+    /// `==` / `!=` / `contains` / `index` on two values that are EQUAL AS VALUES
+    /// and differ in bytes that are not part of the value: both are built by
+    /// the same construction inside a callee, once over a stack filled with
+    /// one byte value and once over another (padding, the storage of variants
+    /// that are not live), float zeros get the other sign. Compared directly,
+    /// wrapped, and as elements of lists (whole-list `==`, `contains`,
+    /// `index`); and against a near copy, which must stay different.
+    fn repr_block(&mut self, t: &T, tag: Option<usize>, out: &mut Vec<S>) {
+        let e = self.build_closed(t, tag);
+        let (e2, flipped) = zero_flip(&e);
+        let ka = self.make_helper(t, &e);
+        let kb = if flipped { self.make_helper(t, &e2) } else { ka };
+        let ann = t.src(&self.env);
+        let lt = T::List(Box::new(t.clone()));
+        let lann = lt.src(&self.env);
+        let paints = [(0x55u8, 0xAAu8), (0x00, 0xFF), (0xFF, 0x00), (0x01, 0x80), (0xAA, 0x55)];
+        let (pa, pb) = *self.p.pick(&paints);
+        // in a callee over a repainted stack, or in two places of `main`'s own frame
+        let inline = self.p.chance(1, 3);
+        let va = self.new_var(t.clone(), None);
+        out.push(S::Paint(pa));
+        out.push(S::Let(va, Some(ann.clone()), if inline { e.clone() } else { E::Make(ka, Box::new(e.clone())) }));
+        let vb = self.new_var(t.clone(), None);
+        out.push(S::Paint(pb));
+        out.push(S::Let(vb, Some(ann.clone()), if inline { e2.clone() } else { E::Make(kb, Box::new(e2.clone())) }));
+        if inline {
+            self.kinds.insert("eq-same-value-built-twice");
+        }
+        let eq = |neg: bool, a: E, b: E| S::Emit(E::Eq(neg, Box::new(a), Box::new(b)), T::Bool);
+        out.push(eq(false, E::Var(va), E::Var(vb)));
+        out.push(eq(true, E::Var(vb), E::Var(va)));
+        // wrapped in an Option / an anonymous record
+        out.push(eq(
+            false,
+            E::Enm("Some".into(), 0, vec![E::Var(va)]),
+            E::Enm("Some".into(), 0, vec![E::Var(vb)]),
+        ));
+        // as list elements: literal or push, one or two elements
+        let la = self.new_var(lt.clone(), None);
+        let lb = self.new_var(lt.clone(), None);
+        let two = self.p.chance(1, 2);
+        if self.p.chance(1, 2) {
+            let xs = |v: usize| if two { vec![E::Var(v), E::Var(v)] } else { vec![E::Var(v)] };
+            out.push(S::Let(la, Some(lann.clone()), E::Lst(xs(va))));
+            out.push(S::Let(lb, Some(lann.clone()), E::Lst(xs(vb))));
+        } else {
+            out.push(S::Let(la, Some(lann.clone()), E::Lst(vec![])));
+            out.push(S::Let(lb, Some(lann.clone()), E::Lst(vec![])));
+            for _ in 0..(1 + two as usize) {
+                out.push(S::Push(E::Var(la), E::Var(va)));
+                out.push(S::Push(E::Var(lb), E::Var(vb)));
+            }
+        }
+        // where the host can receive the lists: are their bytes really different?
+        let sfx = match t {
+            T::Opt(x) if **x == T::Int(false, 32) => Some("ou32"),
+            T::Opt(x) if **x == T::Int(false, 8) => Some("ou8"),
+            T::Opt(x) if **x == T::Int(true, 64) => Some("oi64"),
+            T::F64 => Some("f64"),
+            _ => None,
+        };
+        if let Some(sfx) = sfx {
+            out.push(S::Note(sfx, la, lb));
+        }
+        out.push(eq(false, E::Var(la), E::Var(lb)));
+        out.push(eq(true, E::Var(lb), E::Var(la)));
+        out.push(S::Emit(E::Contains(Box::new(E::Var(la)), Box::new(E::Var(vb))), T::Bool));
+        out.push(S::Emit(E::Index(Box::new(E::Var(lb)), Box::new(E::Var(va))), T::Opt(Box::new(T::Int(false, 64)))));
+        // lists of lists: the inner lists are distinct storages with equal contents
+        out.push(eq(false, E::Lst(vec![E::Var(la)]), E::Lst(vec![E::Var(lb)])));
+        // a near copy (one component changed) stays different, in every position
+        let n = leaves(&e);
+        if n > 0 {
+            let mut k = self.p.below(n as u64) as isize;
+            let e3 = near(&e, &mut k);
+            let kc = self.make_helper(t, &e3);
+            let vc = self.new_var(t.clone(), None);
+            out.push(S::Paint(pa));
+            out.push(S::Let(vc, Some(ann), E::Make(kc, Box::new(e3))));
+            out.push(eq(false, E::Var(va), E::Var(vc)));
+            out.push(eq(false, E::Var(la), E::Lst(if two { vec![E::Var(va), E::Var(vc)] } else { vec![E::Var(vc)] })));
+            out.push(S::Emit(E::Contains(Box::new(E::Var(lb)), Box::new(E::Var(vc))), T::Bool));
+        }
+        self.kinds.insert("eq-same-value-other-bytes");
+        if flipped {
+            self.kinds.insert("eq-float-zero-signs");
+        }
+    }
+
+    /// two lists `[None]` whose `None` was read by `l.get(i)` into a result
+    /// variable that held `Some(x)` resp. `Some(y)` (x ≠ y) just before
+    fn stale_block(&mut self, t: &T, out: &mut Vec<S>) {
+        let x = self.build_closed(t, None);
+        let n = leaves(&x);
+        let y = if n > 0 {
+            let mut k = self.p.below(n as u64) as isize;
+            near(&x, &mut k)
+        } else {
+            self.build_closed(t, None)
+        };
+        let ot = T::Opt(Box::new(t.clone()));
+        let lot = T::List(Box::new(ot.clone()));
+        let k = self.helpers.len();
+        self.helpers.push(format!(
+            "fn stale_{k}(l: {}) -> {} {{ let out = []; let i = 0; while i <= l.len() {{ let x = l.get(i); if i == l.len() {{ out.push(x); }} i = i + 1; }} out }}",
+            T::List(Box::new(t.clone())).src(&self.env),
+            lot.src(&self.env)
+        ));
+        let ann = lot.src(&self.env);
+        let sa = self.new_var(lot.clone(), None);
+        out.push(S::Let(sa, Some(ann.clone()), E::StaleNone(k, Box::new(E::Lst(vec![x.clone()])))));
+        let sb = self.new_var(lot.clone(), None);
+        out.push(S::Let(sb, Some(ann), E::StaleNone(k, Box::new(E::Lst(vec![x, y])))));
+        let nn = self.new_var(ot.clone(), None);
+        out.push(S::Let(nn, Some(ot.src(&self.env)), E::Enm("None".into(), 1, vec![])));
+        let eq = |neg: bool, a: E, b: E| S::Emit(E::Eq(neg, Box::new(a), Box::new(b)), T::Bool);
+        out.push(eq(false, E::Var(sa), E::Var(sb)));
+        out.push(eq(true, E::Var(sb), E::Var(sa)));
+        out.push(eq(false, E::Var(sa), E::Lst(vec![E::Var(nn)])));
+        out.push(S::Emit(E::Contains(Box::new(E::Var(sa)), Box::new(E::Var(nn))), T::Bool));
+        out.push(S::Emit(E::Index(Box::new(E::Var(sb)), Box::new(E::Var(nn))), T::Opt(Box::new(T::Int(false, 64)))));
+        out.push(S::Emit(E::Get(Box::new(E::Var(sa)), 0), T::Opt(Box::new(ot))));
+        self.kinds.insert("eq-none-after-some");
+    }
+
     fn stmt(&mut self, depth: u32, out: &mut Vec<S>) {
         let live = self.live_vars();
         let r = self.p.below(100);
@@ -665,6 +886,19 @@ impl<'a> Gen<'a> {
             let w = self.new_var(T::Unit, Some(fs));
             out.push(S::Let(w, None, E::Rec(None, es)));
             self.kinds.insert("anon-record");
+        } else if r < 34 {
+            // equality must not see bytes that are not part of the value
+            let t = if self.vars[v].anon.is_none() && !self.vars[v].is_const && self.p.chance(1, 2) {
+                self.vars[v].ty.clone()
+            } else {
+                self.pick_type()
+            };
+            if self.p.chance(2, 3) {
+                let tag = if self.p.chance(2, 3) { Some(self.p.below(8) as usize) } else { None };
+                self.repr_block(&t, tag, out);
+            } else {
+                self.stale_block(&t, out);
+            }
         } else if r < 52 {
             // mutate through a field path, or the whole variable
             if self.vars[v].is_const {
@@ -997,10 +1231,30 @@ impl<'a> Gen<'a> {
     }
 }
 
+/// the same construction with the sign of every float zero flipped: equal as
+/// a value (IEEE `==`), another bit pattern; `true` when there was one
+fn zero_flip(e: &E) -> (E, bool) {
+    let mut any = false;
+    let mut go = |x: &E| {
+        let (y, f) = zero_flip(x);
+        any |= f;
+        y
+    };
+    let out = match e {
+        E::Opaque("0.0", _) => return (E::OpaqueK("-0.0", "-0", "0"), true),
+        E::OpaqueK("-0.0", _, _) => return (E::Opaque("0.0", "0"), true),
+        E::Rec(n, fs) => E::Rec(n.clone(), fs.iter().map(|(f, x)| (f.clone(), go(x))).collect()),
+        E::Enm(c, t, fs) => E::Enm(c.clone(), *t, fs.iter().map(|x| go(x)).collect()),
+        E::Lst(fs) => E::Lst(fs.iter().map(|x| go(x)).collect()),
+        other => other.clone(),
+    };
+    (out, any)
+}
+
 /// number of literal leaves of a construction expression
 fn leaves(e: &E) -> usize {
     match e {
-        E::Lit(_) | E::BLit(_) | E::Str(_) | E::Opaque(..) => 1,
+        E::Lit(_) | E::BLit(_) | E::Str(_) | E::Opaque(..) | E::OpaqueK(..) => 1,
         E::Rec(_, fs) => fs.iter().map(|(_, x)| leaves(x)).sum(),
         E::Enm(_, _, fs) | E::Lst(fs) => fs.iter().map(leaves).sum(),
         E::Host(_, x) | E::Pass(_, x) => leaves(x),
@@ -1012,7 +1266,7 @@ fn leaves(e: &E) -> usize {
 /// differs from the original in exactly one component
 fn near(e: &E, k: &mut isize) -> E {
     match e {
-        E::Lit(_) | E::BLit(_) | E::Str(_) | E::Opaque(..) => {
+        E::Lit(_) | E::BLit(_) | E::Str(_) | E::Opaque(..) | E::OpaqueK(..) => {
             *k -= 1;
             if *k != -1 {
                 return e.clone();
@@ -1033,6 +1287,7 @@ fn near(e: &E, k: &mut isize) -> E {
                     "10.0.0.0 / 8" => E::Opaque("0.0.0.0 / 0", "0.0.0.0/0"),
                     _ => E::Opaque("10.0.0.0 / 8", "10.0.0.0/8"),
                 },
+                E::OpaqueK(..) => E::Opaque("1.5", "1.5"),
                 _ => unreachable!(),
             }
         }
@@ -1108,6 +1363,9 @@ impl Src<'_> {
             E::Try(k, _, x) => format!("try_{k}({})", self.e(x, None)),
             E::Eq(neg, a, b) => format!("({} {} {})", self.e(a, None), if *neg { "!=" } else { "==" }, self.e(b, None)),
             E::Len(x) => format!("{}.len()", self.e(x, None)),
+            E::OpaqueK(src, _, _) => format!("({src})"),
+            E::Make(k, _) => format!("make_{k}({})", (0..NARGS).map(|i| format!("p{i}")).collect::<Vec<_>>().join(", ")),
+            E::StaleNone(k, l) => format!("stale_{k}({})", self.e(l, None)),
         }
     }
 
@@ -1201,6 +1459,8 @@ impl Src<'_> {
                 }
                 S::Push(l, e) => *out += &format!("{ind}{}.push({});\n", self.e(l, None), self.e(e, None)),
                 S::Swap(l, i, j) => *out += &format!("{ind}{}.swap({i}, {j});\n", self.e(l, None)),
+                S::Paint(v) => *out += &format!("{ind}paint_stack({v});\n"),
+                S::Note(sfx, a, b) => *out += &format!("{ind}note_{sfx}({}, {});\n", vname(*a), vname(*b)),
                 S::Emit(e, t) => {
                     let es = self.e(e, Some(t));
                     // bind once so that the emitted expression is evaluated once
@@ -1337,6 +1597,12 @@ fn spec_e(e: &E, args: &Args, out: &mut Vec<String>) {
             out.push("Z".into());
             spec_e(x, args, out);
         }
+        E::OpaqueK(_, shown, key) => out.extend(["O2".into(), hex(shown), hex(key)]),
+        E::Make(_, x) => spec_e(x, args, out),
+        E::StaleNone(_, l) => {
+            out.push("W".into());
+            spec_e(l, args, out);
+        }
     }
 }
 
@@ -1363,6 +1629,7 @@ fn spec_block(ss: &[S], args: &Args, out: &mut Vec<String>) {
                 spec_e(l, args, out);
                 out.extend([i.to_string(), j.to_string()]);
             }
+            S::Paint(_) | S::Note(..) => out.push("nop".into()),
             S::Emit(e, _) => {
                 out.push("emit".into());
                 spec_e(e, args, out);
@@ -1421,7 +1688,7 @@ pub fn gen_program(p: &mut Prng) -> Program {
     let o = GenOpts { exotic: false, host: true };
     let n = 1 + p.below(4) as usize;
     let env = gen_env(p, n, &o);
-    let mut g = Gen { p, env, vars: vec![], helpers: vec![], kinds: Default::default(), fresh: 0, closed: false };
+    let mut g = Gen { p, env, vars: vec![], helpers: vec![], kinds: Default::default(), fresh: 0, closed: false, closed_args: false };
     for d in &g.env.decls {
         match d.nparams() {
             1 => {
@@ -1535,6 +1802,115 @@ pub fn gen_case(seed: u64, idx: u64) -> Case {
     Case { script, spec, args, sig: pr.kinds.join("+") }
 }
 
+// ------------------------------------------------------------ class representatives
+
+/// The element types of the representation battery: one per way a value can
+/// own bytes that are not part of it (an Option / enum whose live variant is
+/// smaller than the largest, padding inside and at the end of a record, float
+/// zeros, nests of those), plus the kinds that go through clone functions.
+fn rep_env() -> (Env, Vec<T>) {
+    let u = |b: u8| T::Int(false, b);
+    let f = |n: &str, t: T| (n.to_string(), t);
+    let env = Env {
+        decls: vec![
+            // 0: padding between the fields
+            Decl::Record { name: "R0".into(), generic: 0, fields: vec![f("a", u(8)), f("b", u(32))] },
+            // 1: padding at the end
+            Decl::Record { name: "R1".into(), generic: 0, fields: vec![f("a", u(64)), f("b", u(8))] },
+            // 2: floats of both widths (and padding after the f32)
+            Decl::Record { name: "R2".into(), generic: 0, fields: vec![f("x", T::F64), f("y", T::F32)] },
+            // 3: payloads of three sizes
+            Decl::Enum {
+                name: "E3".into(),
+                generic: 0,
+                variants: vec![("A".into(), vec![u(64), u(16)]), ("B".into(), vec![u(8)]), ("C".into(), vec![])],
+            },
+            // 4: generic, payload then nothing
+            Decl::Enum {
+                name: "E4".into(),
+                generic: 1,
+                variants: vec![("P".into(), vec![T::Param(0), u(8)]), ("Q".into(), vec![])],
+            },
+            // 5: needs a clone function, holds an Option whose payload may be stale
+            Decl::Record {
+                name: "R5".into(),
+                generic: 0,
+                fields: vec![f("s", T::Str), f("o", T::Opt(Box::new(u(32)))), f("t", u(8))],
+            },
+            // 6: nested: a record with padding inside an enum inside a record
+            Decl::Record {
+                name: "R6".into(),
+                generic: 0,
+                fields: vec![f("k", T::Bool), f("e", T::Named(3, vec![])), f("r", T::Opt(Box::new(T::Named(0, vec![]))))],
+            },
+        ],
+    };
+    let o = |t: T| T::Opt(Box::new(t));
+    let ts = vec![
+        o(u(32)),
+        o(u(8)),
+        o(T::Int(true, 64)),
+        T::Named(0, vec![]),
+        T::Named(1, vec![]),
+        T::Named(2, vec![]),
+        T::F64,
+        T::F32,
+        o(T::F64),
+        T::Named(3, vec![]),
+        T::Named(4, vec![u(16)]),
+        T::Named(4, vec![T::Named(0, vec![])]),
+        T::Res(Box::new(u(64)), Box::new(u(8))),
+        T::Verdict(Box::new(u(8)), Box::new(T::Named(1, vec![]))),
+        o(T::Named(0, vec![])),
+        o(o(u(16))),
+        T::Named(5, vec![]),
+        T::Named(6, vec![]),
+        o(T::Str),
+        o(T::Unit),
+        T::Host("Pt"),
+        o(T::Host("Pt")),
+        o(T::Host("Big")),
+        o(T::IpAddr),
+        o(T::Prefix),
+        o(T::Char),
+        T::List(Box::new(o(u(32)))),
+        T::Bool,
+        u(64),
+    ];
+    (env, ts)
+}
+
+pub fn n_reps() -> u64 {
+    2 * rep_env().1.len() as u64
+}
+
+/// representative `idx` of the battery: independent of the seed of the run
+pub fn gen_rep_case(idx: u64) -> Case {
+    let (env, ts) = rep_env();
+    let t = ts[idx as usize % ts.len()].clone();
+    let round = idx as usize / ts.len();
+    let mut p = Prng::for_case(0xC02_4E95, idx);
+    let mut g = Gen { p: &mut p, env, vars: vec![], helpers: vec![], kinds: Default::default(), fresh: 0, closed: false, closed_args: false };
+    let mut body = vec![];
+    // every variant of an enum-like type in turn (two per representative)
+    g.repr_block(&t, Some(2 * round), &mut body);
+    g.repr_block(&t, Some(2 * round + 1), &mut body);
+    if round == 0 {
+        g.stale_block(&t, &mut body);
+    } else {
+        g.repr_block(&t, Some(2 * round + 2), &mut body);
+    }
+    for v in g.live_vars() {
+        body.extend(g.emit_var(v));
+    }
+    g.kinds.insert("representative");
+    let pr = Program { consts: vec![], env: g.env, helpers: g.helpers, body, kinds: g.kinds.into_iter().collect() };
+    let script = source(&pr);
+    let args: Vec<Args> = (0..3).map(|_| gen_args(&mut p)).collect();
+    let spec = args.iter().map(|a| spec(&pr, a)).collect::<Vec<_>>().join("\n");
+    Case { script, spec, args, sig: format!("{}:{}", pr.kinds.join("+"), t.src(&pr.env)) }
+}
+
 pub fn case_json(c: &Case) -> Value {
     json!({
         "kind": "beh",
@@ -1612,11 +1988,20 @@ fn run_case(script: &str, specs: &[String], args: &[Args], sig: &str, rt: &Runti
         }
     };
     let mut all_ok = true;
+    let mut run_no = 0usize;
     for (a, sp) in args.iter().zip(specs) {
         LOG.lock().unwrap().clear();
         let live_before = LIVE_BIG.load(std::sync::atomic::Ordering::SeqCst);
+        // what `main`'s frame holds before `main` writes to it
+        paint([0x00u8, 0x5A, 0xC3][run_no % 3]);
+        run_no += 1;
         let r = std::panic::catch_unwind(std::panic::AssertUnwindSafe(|| f.call(a.0, a.1, a.2, a.3, a.4, a.5, a.6)));
         let got = LOG.lock().unwrap().join(",");
+        for (c, k) in [(&BYTES_DIFFER, "differ"), (&BYTES_SAME, "same")] {
+            for _ in 0..c.swap(0, std::sync::atomic::Ordering::SeqCst) {
+                rep.hist("equal_values_compared_as_list_elements_bytes", k);
+            }
+        }
         let live_after = LIVE_BIG.load(std::sync::atomic::Ordering::SeqCst);
         let bad = BAD_BIG.swap(0, std::sync::atomic::Ordering::SeqCst);
         // (a value pushed into a list that lives in a `const` legitimately outlives the call)
@@ -1664,7 +2049,7 @@ fn run_case(script: &str, specs: &[String], args: &[Args], sig: &str, rt: &Runti
     }
 }
 
-pub fn worker(seed: u64, base: u64, from: u64, n: u64) {
+pub fn worker(seed: u64, base: u64, from: u64, n: u64, reps: bool) {
     install_panic_hook();
     let rt = runtime();
     let mut drv = Driver::spawn().expect("driver");
@@ -1673,7 +2058,7 @@ pub fn worker(seed: u64, base: u64, from: u64, n: u64) {
     for idx in from..from + n {
         println!("START {idx}");
         crate::case_begins();
-        let c = gen_case(seed, base + idx);
+        let c = if reps { gen_rep_case(base + idx) } else { gen_case(seed, base + idx) };
         let specs: Vec<String> = c.spec.lines().map(|s| s.to_string()).collect();
         run_case(&c.script, &specs, &c.args, &c.sig, &rt, &mut drv, &mut rep);
     }
